@@ -1,6 +1,7 @@
 from __future__ import annotations
 
 import textwrap
+import tokenize
 
 from typing import TYPE_CHECKING, Final, NewType
 
@@ -303,7 +304,7 @@ class Tokenizer:
         if not self._lines and self._path:
             # read once: every '=' debug field of an f-string asks for lines, and re-reading the file from its first
             # line each time is quadratic in the number of such fields
-            with open(self._path, encoding="utf-8-sig") as f:
+            with tokenize.open(self._path) as f:  # (the standard library's: PEP 263 declaration, byte order mark)
                 self._lines = dict(enumerate(f, 1))
 
         return [self._lines.get(n, "") for n in line_numbers]
